@@ -234,6 +234,7 @@ def check(chk):
     _token_cache(chk, repo)
     _replace_or_advance(chk, repo)
     _plumbing(chk, repo)
+    _settings_not_mutated(chk, repo)
 
     # ------------------------------------------------------------ FLOW-8
     lp = repo.cls(LP, "LightPlayer")
@@ -533,6 +534,13 @@ def _plumbing(chk, repo):
         if isinstance(x, ast.Assign) and src(x.targets[0]) == "ShowConfig" and isinstance(x.value, ast.Call) and len(x.value.args) == 2:
             fields = const_value(x.value.args[1])
     chk.need(fields and list(fields) == ["name"] + CFG_NAMES, "FWD-17", "ShowConfig fields as the rules name them", csc)
+    dflt = [n for n in csc.cfg().nodes if n.kind == "stmt" and isinstance(n.ast, ast.Assign) and isinstance(n.ast.targets[0], ast.Name) and n.ast.targets[0].id in fields]
+    for n in dflt:
+        g = csc.cfg().guards_at(n.id)
+        nm = n.ast.targets[0].id
+        chk.ob("FWD-17", "create_show_config replaces `%s` by a default only when none was given (None), never a given 0 / False" % nm,
+               g.get("%s is None" % nm) is True and len({k for k in g if nm in k and "None" not in k}) == 0, csc.where(n.ast), detail="guards %s" % sorted(g.items()),
+               construct=csc.ident, text="default for " + nm)
     mk = [c for c in csc.calls() if isinstance(c.func, ast.Name) and c.func.id == "ShowConfig"]
     chk.need(len(mk) == 1 and not mk[0].keywords and len(mk[0].args) == len(fields), "FWD-17", "create_show_config builds the record positionally", csc)
     for fld, a in zip(fields, mk[0].args):
@@ -612,6 +620,52 @@ def _plumbing(chk, repo):
     sc_ = [n for n, c in mc.calls_named("stop")]
     chk.ob("TABLE-17", "a stopped instance is forgotten (after it was stopped)", len(dl) == 1 and len(sc_) == 1 and mc.dominates(sc_[0].id, dl[0].id), sm.where(),
            construct=sm.ident, text="stop forgets instance")
+
+
+def _settings_not_mutated(chk, repo):
+    """MUT-17: a config player never writes into the settings it is handed: they are the mode's parsed config or a cached show step and
+    are handed out again at the next play.  A value that is changed per play (priority raised by the caller's priority, the action
+    popped off) is changed in a private copy: every store into / mutating call on a name that came out of `settings` is dominated by
+    a re-binding of that name to a copy of itself."""
+    MUTATORS = {"pop", "update", "setdefault", "clear", "append", "extend", "remove", "popitem", "insert"}
+    COPIERS = {"dict", "deepcopy", "copy", "list"}
+    n = 0
+    for rel, m in sorted(repo.modules.items()):
+        if not rel.startswith("mpf/config_players/"):
+            continue
+        for c in m.classes.values():
+            f = c.methods.get("play")
+            if f is None or "settings" not in [a.arg for a in f.node.args.args]:
+                continue
+            taint = {"settings"}
+            for x in walk_local(f.node):
+                if isinstance(x, ast.For) and any(isinstance(y, ast.Name) and y.id in taint for y in ast.walk(x.iter)):
+                    taint |= {t.id for t in ast.walk(x.target) if isinstance(t, ast.Name)}
+            cfg = None
+            for x in walk_local(f.node):
+                names = []
+                tg = x.targets if isinstance(x, (ast.Assign, ast.Delete)) else ([x.target] if isinstance(x, ast.AugAssign) else [])
+                for t in tg:
+                    if isinstance(t, ast.Subscript) and isinstance(t.value, ast.Name) and t.value.id in taint:
+                        names.append(t.value.id)
+                if isinstance(x, ast.Expr) or isinstance(x, ast.Assign):
+                    for y in ast.walk(x):
+                        if isinstance(y, ast.Call) and isinstance(y.func, ast.Attribute) and isinstance(y.func.value, ast.Name) and y.func.value.id in taint and \
+                                y.func.attr in MUTATORS:
+                            names.append(y.func.value.id)
+                for nm in names:
+                    n += 1
+                    chk.analysed(f)
+                    cfg = cfg or f.cfg()
+                    here = [q for q in cfg.nodes if q.kind == "stmt" and q.ast is x]
+                    copies = [q for q in cfg.nodes if q.kind == "stmt" and isinstance(q.ast, ast.Assign) and src(q.ast.targets[0]) == nm and isinstance(q.ast.value, ast.Call) and
+                              ((call_attr(q.ast.value) or getattr(q.ast.value.func, "id", "")) in COPIERS) and
+                              ([src(a) for a in q.ast.value.args] == [nm] or (isinstance(q.ast.value.func, ast.Attribute) and src(q.ast.value.func.value) == nm))]
+                    ok = bool(here) and any(cfg.dominates(cp.id, here[0].id) for cp in copies)
+                    chk.ob("MUT-17", "%s.play changes `%s` only after it made its own copy of it" % (c.name, nm), ok, f.where(x),
+                           detail="`%s` writes into the settings object that is handed out again at the next play" % short(x, 60) if not ok else "", construct=f.ident,
+                           text="handed settings mutated: %s in %s" % (nm, c.name))
+    chk.ob("MUT-17", "writes into handed settings examined (%d)" % n, n >= 2, "mpf/config_players/show_player.py:1", nontrivial=False)
 
 
 def _token_cache(chk, repo):
@@ -698,6 +752,8 @@ def battery():
         M("pause action resumes", "mpf/config_players/show_player.py", "            instance_dict[key].pause()", "            instance_dict[key].resume()", "TABLE-17"),
         M("stop action keeps the stopped instance", "mpf/config_players/show_player.py", "            instance_dict[key].stop()\n            del instance_dict[key]", "            instance_dict[key].stop()", "TABLE-17"),
         M("advance mapped to step_back", "mpf/config_players/show_player.py", "            'advance': self._advance,", "            'advance': self._step_back,", "TABLE-17"),
+        M("show player raises the priority inside the shared settings", "mpf/config_players/show_player.py", "                show_settings = dict(show_settings)\n", "", "MUT-17"),
+        M("explicit sync_ms 0 replaced by the machine default", "mpf/core/show_controller.py", "        if sync_ms is None:\n            sync_ms = self.machine.config['mpf']['default_show_sync_ms']", "        if not sync_ms:\n            sync_ms = self.machine.config['mpf']['default_show_sync_ms']", "FWD-17"),
     ]
 
 
